@@ -111,7 +111,8 @@ def same_result(a, b):
 def make_inputs(n_ft, seed, n_src):
     from leaspy.io.data import Data
     from leaspy.algo import AlgorithmSettings
-    df = cohort(seed + 50, n_ind=5, n_ft=n_ft, min_visits=2, max_visits=4)
+    # as many individuals as the training cohort (8): values left by the fit would fit in shape, so nothing hides their re-use
+    df = cohort(seed + 50, n_ind=8, n_ft=n_ft, min_visits=2, max_visits=4)
     ids = list(df["ID"].unique())
     ip_vals = {"xi": [0.1, -0.2], "tau": [70.0, 75.5]}
     from leaspy.io.outputs import IndividualParameters
